@@ -185,12 +185,12 @@ func (srv *Server) newTypeMap() *pgtype.Map {
 
 // Close gracefully closes the underlaying Postgres server.
 func (srv *Server) Close() error {
-	if srv.closing.Load() {
-		return nil
+	// NOTE: only the call switching the closing state closes the closer
+	// channel, all calls wait until the in-flight commands are handled.
+	if srv.closing.CompareAndSwap(false, true) {
+		close(srv.closer)
 	}
 
-	srv.closing.Store(true)
-	close(srv.closer)
 	srv.wg.Wait()
 	return nil
 }
